@@ -1,9 +1,9 @@
 SPECIFICATION Spec
 CONSTANTS
   Ids = {"r1", "r2"}
-  Lens = {100, 7340032}
-  MaxSizes = {20971519, 20971520, 25165824}
-  SegMax = 10485760
+  Lens = {1, 7}
+  MaxSizes = {19, 20, 24}
+  SegMax = 10
   MaxBatches = 2
   MaxOps = 0
   Menu = {"init", "delete", "update", "enq", "deliver", "track", "untrack", "storeset", "closeall", "crash", "start"}
